@@ -25,7 +25,10 @@ enum { W_FREE2 = 1, W_FREE1 = 2, W_FUN = 3, W_LAMBDA = 4, W_ARGF = 5, W_MEMFN = 
 // the value every target returns: depends on the target kind, its captured state and both arguments
 static inline int tgt_result(int who, int state, int a, int b)
 {
-    return (int)((unsigned)a + (unsigned)state * 3u + (unsigned)b * 5u + (unsigned)who * 7u);
+    // bit-local mixing (xor / rotate) on purpose: sums of several 32-bit terms associated differently in the kernel and the
+    // driver are a notoriously hard equivalence for SAT solvers and say nothing about the library
+    unsigned s = (unsigned)state, y = (unsigned)b;
+    return (int)((unsigned)a ^ (s << 7 | s >> 25) ^ (y << 13 | y >> 19) ^ ((unsigned)who << 20));
 }
 static inline int vf_log_call(int who, int state, int flav, int a, int b)
 {
@@ -51,13 +54,13 @@ struct Fun {
     int operator()(int a, int b) && { return vf_log_call(W_FUN, s, 3, a, b); }
     int operator()(int a, int b) const&& { return vf_log_call(W_FUN, s, 4, a, b); }
 };
-// ---- predicate (not_fn): result is (a + s) < b
+// ---- predicate (not_fn): result is (a ^ s) < b
 struct Pred {
     int s;
-    bool operator()(int a, int b) & { vf_log_call(W_PRED, s, 1, a, b); return (long long)a + s < b; }
-    bool operator()(int a, int b) const& { vf_log_call(W_PRED, s, 2, a, b); return (long long)a + s < b; }
-    bool operator()(int a, int b) && { vf_log_call(W_PRED, s, 3, a, b); return (long long)a + s < b; }
-    bool operator()(int a, int b) const&& { vf_log_call(W_PRED, s, 4, a, b); return (long long)a + s < b; }
+    bool operator()(int a, int b) & { vf_log_call(W_PRED, s, 1, a, b); return (a ^ s) < b; }
+    bool operator()(int a, int b) const& { vf_log_call(W_PRED, s, 2, a, b); return (a ^ s) < b; }
+    bool operator()(int a, int b) && { vf_log_call(W_PRED, s, 3, a, b); return (a ^ s) < b; }
+    bool operator()(int a, int b) const&& { vf_log_call(W_PRED, s, 4, a, b); return (a ^ s) < b; }
 };
 // ---- function object that tells the reference flavour of its argument: 1 = int&, 2 = int const&, 3 = int&&, 4 = int const&&
 struct ArgF {
@@ -124,15 +127,15 @@ struct Nt : NtTail<W - 1> {
     void fill(long long st) { if constexpr (W > 1) { for (int k = 1; k < W; k++) this->w[k - 1] = st + k; } }
     void copy_tail(Nt const& o) { if constexpr (W > 1) { for (int k = 1; k < W; k++) this->w[k - 1] = o.w[k - 1]; } }
     explicit Nt(int st) : s(st), mark(NT_LIVE) { fill(st); ++vf_live; }
-    Nt(Nt const& o) : s(o.s), mark(NT_LIVE)
+    // the source's marker is read before this object's own marker is written (source and destination may be the same address)
+    static int probe(int m) { if (m != NT_LIVE) vf_corrupt |= 1; return NT_LIVE; }
+    Nt(Nt const& o) : s(o.s), mark(probe(o.mark))
     {
-        if (o.mark != NT_LIVE) vf_corrupt |= 1;
         copy_tail(o);
         ++vf_live; ++vf_ncopy;
     }
-    Nt(Nt&& o) noexcept : s(o.s), mark(NT_LIVE)
+    Nt(Nt&& o) noexcept : s(o.s), mark(probe(o.mark))
     {
-        if (o.mark != NT_LIVE) vf_corrupt |= 1;
         copy_tail(o);
         ++vf_live; ++vf_nmove;
     }
